@@ -18,6 +18,14 @@ from mcx.seams import owned_random
 
 LETTERS = ('S1', 'S2', 'S3', 'S4', 'U', 'W')
 MAPPABLE = ('S1', 'S2', 'S3', 'S4')
+# Species whose two resolutions have a different number of residues (S5: 1 -> 2, S6: 2 -> 1) are
+# OUTSIDE the property's premise: "carries the residue numbers of its input molecule" and "equals
+# its species' exchange map applied to that input molecule" are undefined there (the exchange map
+# itself refuses the call: Molecule.resids setter raises ValueError).  Off by default; with
+# C05_RESCOUNT=1 a small extra unit runs them and records what happens under informational
+# counters and outcome labels only - never as a violation.
+RESCOUNT = ('S5', 'S6') if os.environ.get('C05_RESCOUNT') == '1' else ()
+ALL = LETTERS + ('S5', 'S6')
 SCALES = (0.5, 1.0)
 BOXES = ('rect', 'tric')
 TOL_FMT = 0.5e-3 + 1e-9          # coordinate format: 3 decimals
@@ -40,6 +48,11 @@ SPECIES = {
            [('N1', 'S3A', 1), ('N2', 'S3A', 1), ('N3', 'S3A', 1)], _chain(3)),
     'S4': ([('E1', 'S4R', 1)], [],
            [('O1', 'S4A', 1), ('O2', 'S4A', 1)], _chain(2)),
+    # one residue -> two residues, two residues -> one residue
+    'S5': ([('G1', 'S5R', 1), ('G2', 'S5R', 1), ('G3', 'S5R', 1)], _chain(3),
+           [('P1', 'S5P', 1), ('P2', 'S5P', 1), ('Q1', 'S5Q', 2), ('Q2', 'S5Q', 2)], _chain(4)),
+    'S6': ([('J1', 'S6X', 1), ('K1', 'S6Y', 2), ('K2', 'S6Y', 2)], _chain(3),
+           [('R1', 'S6A', 1), ('R2', 'S6A', 1), ('R3', 'S6A', 1), ('R4', 'S6A', 1)], _chain(4)),
     'U': ([('U1', 'UNM', 1), ('U2', 'UNM', 1)], _chain(2), None, None),
     'W': ([('W', 'W', 1)], [], None, None),
 }
@@ -106,7 +119,7 @@ class World:
         atomid = 0
         for k, sp in enumerate(self.seq):
             atoms = SPECIES[sp][0]
-            base = generic_points(len(atoms), seed, tag=100 + LETTERS.index(sp)) * 0.45
+            base = generic_points(len(atoms), seed, tag=100 + ALL.index(sp)) * 0.45
             rng = np.random.default_rng([int(seed), k, 17])      # generic coordinate table only
             pos = base @ rots[k % len(rots)].T + rng.uniform(-0.02, 0.02, base.shape)
             pos = r3(pos + np.array([1.3 + 0.9 * k, 2.1 + 0.37 * k, 1.7 + 0.61 * k]))
@@ -121,7 +134,7 @@ class World:
                 recs.append((resid, rn, an, atomid, p))
             self.mols.append({'sp': sp, 'resids': resids, 'pos': pos})
         self.gro = gro_text(recs, title=self.title, box=BOX[box])
-        self.present = [s for s in LETTERS if s in self.seq]
+        self.present = [s for s in ALL if s in self.seq]
 
     def itp(self, sp):
         return itp_text(sp, SPECIES[sp][0], SPECIES[sp][1])
@@ -137,7 +150,7 @@ def end_molecule(sp, first_pos, seed):
     key = (sp, seed)
     if key not in _END_CACHE:
         atoms, bonds = SPECIES[sp][2], SPECIES[sp][3]
-        pts = generic_points(len(atoms), seed, tag=200 + LETTERS.index(sp)) * 0.35
+        pts = generic_points(len(atoms), seed, tag=200 + ALL.index(sp)) * 0.35
         _END_CACHE[key] = (molecule(sp, atoms, bonds, pts, resid_offset=END_RESID_OFFSET), pts)
     mol, pts = _END_CACHE[key]
     new = mol.deep_copy()
@@ -181,7 +194,10 @@ class C05(Check):
                   'over that finite space')
     level_note = ('trusted: the text builders and the 30-line reader in this module, numpy; alignment is not run '
                   '(the maps are built from the placed coordinates); velocities and non-default coordinate '
-                  'precision are not covered; start and end resolution have the same number of residues')
+                  'precision are not covered. KNOWN LIMITATION (outside the premise, informational only): when the two '
+                  'resolutions of a species have a different number of residues the exchange map call raises '
+                  'ValueError (Molecule.resids setter) and extrapolate_system leaves a partial file; '
+                  'C05_RESCOUNT=1 adds a unit that counts this (info_residue_count_differs_*), never a violation')
     assumptions = ['coordinates from conditioned generic tables selected by VERIF_SEED',
                    'np.random.rand owned: fixed answer tables, different for map construction, extrapolation '
                    'and the oracle call, so equality for 1/2-atom references is decided by the C02 invariants',
@@ -197,9 +213,21 @@ class C05(Check):
             fix = 0 if n == 1 else (1 if n == 2 else (2 if n <= 4 else 3))
             for pre in itertools.product(LETTERS, repeat=fix):
                 u.append({'n': n, 'pre': list(pre)})
+        if RESCOUNT:
+            self.bounds['residue_count_differs'] = {'species': list(RESCOUNT), 'sequence_length_max': 2,
+                                                    'alphabet': list(RESCOUNT) + ['S1', 'W']}
+            u.append({'rescount': True})
         return u
 
     def cases(self, unit, tier, seed):
+        if unit.get('rescount'):
+            alpha = RESCOUNT + ('S1', 'W')
+            for n in (1, 2):
+                for seq in itertools.product(alpha, repeat=n):
+                    if any(x in RESCOUNT for x in seq):
+                        for box in BOXES:
+                            yield {'seq': list(seq), 'box': box}
+            return
         n, pre = unit['n'], unit['pre']
         for rest in itertools.product(LETTERS, repeat=n - len(pre)):
             for box in BOXES:
@@ -212,7 +240,7 @@ class C05(Check):
             subs = [(case['mode'], case['sub'], case['scale'])]
         else:
             subs = [('nothing', [], None)]
-            present = [s for s in MAPPABLE if s in world.present]
+            present = [s for s in MAPPABLE + RESCOUNT if s in world.present]
             for sub in subsets(present):
                 for sc in SCALES:
                     subs.append(('computed', sub, sc))
@@ -238,7 +266,7 @@ class C05(Check):
             return t[state['i'] % len(t)].copy()
 
         loaded = [s for s in world.present if s != 'W']
-        cls = f"{mode}/len{len(world.seq)}/{world.boxkind}"
+        cls = f"{mode}/len{len(world.seq)}/{world.boxkind}" + ('/rescount' if any(x in RESCOUNT for x in world.seq) else '')
         with owned_random(script):
             system = System(MemFile(world.gro, 'system.gro'),
                             *[MemFile(world.itp(s), s + '.itp') for s in loaded])
@@ -273,9 +301,14 @@ class C05(Check):
                     R.violation(f'preflight/{mode}/file-written', desc,
                                 f'{type(err).__name__} raised but the output path exists')
                 return
+            info = any(x in RESCOUNT for x in sub)       # informational unit (outside the premise)
             if err is not None:
-                R.case(desc, nontrivial=False, cls=cls, outcome=f'computed:raised:{type(err).__name__}')
-                R.violation(f'extrapolate/exception/{type(err).__name__}', desc, repr(err)[:300])
+                R.case(desc, nontrivial=False, cls=cls, outcome=f'computed:raised:{type(err).__name__}'
+                       + (':partial-file-left' if exists else ''))
+                if info:
+                    R.add('info_residue_count_differs_raised')
+                else:
+                    R.violation(f'extrapolate/exception/{type(err).__name__}', desc, repr(err)[:300])
                 return
             if not exists:
                 R.case(desc, nontrivial=False, cls=cls, outcome='computed:no-file')
@@ -285,7 +318,9 @@ class C05(Check):
             sig, det, nmapped = self._compare(world, desc, out, man)
         R.case(desc, nontrivial=nmapped > 0, cls=cls, outcome=f'computed:{"ok" if sig is None else "bad"}')
         R.add('mapped_molecules_compared', nmapped)
-        if sig:
+        if sig and info:
+            R.add('info_residue_count_differs_mismatch')
+        elif sig:
             R.violation(sig, desc, det)
 
     def _compare(self, world, desc, out, man):
@@ -322,9 +357,15 @@ class C05(Check):
                 return ('output/molecule-order-or-identity', f'{where}: names {[(b[1], b[2]) for b in block]}',
                         len(mapped))
             tres = sorted(set(ri for _, _, ri in tatoms))
-            want_res = [m['resids'][tres.index(ri)] for _, _, ri in tatoms]
-            if [b[0] for b in block] != want_res:
-                return ('output/residue-numbers', f'{where}: got {[b[0] for b in block]}, expected {want_res}',
+            got_res = [b[0] for b in block]
+            if len(tres) == len(m['resids']):
+                want_res = [m['resids'][tres.index(ri)] for _, _, ri in tatoms]
+            elif len(m['resids']) == 1:
+                want_res = m['resids'] * len(tatoms)
+            else:       # several input residues, one output residue: any one of the input's numbers
+                want_res = got_res if len(set(got_res)) == 1 and got_res[0] in m['resids'] else m['resids']
+            if got_res != want_res:
+                return ('output/residue-numbers', f'{where}: got {got_res}, expected {want_res}',
                         len(mapped))
             # coordinates: the species' own map applied to an independently built input molecule
             mol = start_template(sp).copy()
